@@ -260,3 +260,6 @@ extend("C17", "", "a tag list without json: both methods enumerate the declared 
 extend("C19", "A-TOTAL", "the UnmarshalJSON methods of pkg/types interpreted on every class of complete JSON value return (no index/slice panic).")
 extend("C07", "", "A-IDENT: the field a length check reads is exported for every name and capitalization.")
 extend("C02", "A-SIZED families", "end-to-end sized-integer families on optional properties.")
+extend("C02", "B-FLAG", "the CLI hands the generator the tag list the user wrote: list flags split commas and accumulate, each flag reaches its Config field.")
+extend("C17", "B-FLAG", "the tag list (which both decoders bind by) reaches Config.Tags as written.")
+extend("C16", "", "list flags are registered with StringSliceVar(P).")
